@@ -577,8 +577,8 @@ def _run(Diff, o, n, syntax):
         return "err:ValueError"
     except NotImplementedError:
         return "err:NotImplementedError"
-    except AssertionError:      # hier_config: "we are still in a banner" (outside the fragment only)
-        return "err:AssertionError"
+    except Exception as e:      # e.g. hier_config's AssertionError "we are still in a banner" (outside the fragment)
+        return "err:" + type(e).__name__
 
 
 def impl(case):
